@@ -141,6 +141,10 @@ def run(prop, tier, seed, rep):
             inp["tag"] = "chain"
             if rng.random() < 0.5:
                 inp["prefix"] = rng.choice((1, 5, 14))
+        # the frame sits far into a long stream (absolute positions beyond 2^31, 2^32, 2^33)
+        if rng.random() < 0.15:
+            inp["base"] = rng.choice(([1, 2147483600], [2, 0], [2, 17], [5, 123], [1023, 99]))
+            inp["tag"] = "far"
         # a failure that is not transient: one read (script entry -1) or the n-th seek fails for good
         if rng.random() < 0.1:
             if rng.random() < 0.5:
@@ -151,7 +155,7 @@ def run(prop, tier, seed, rep):
         inputs.append(inp)
     events = hx_reader(hx, inputs)
     # reference calls for drift detection (the same bytes, unscripted)
-    refs = hx_reader(hx, [{"bytes": x["bytes"], "script": [], "tag": "ref", "prefix": x.get("prefix", 0), "chain": x.get("chain", 0)} for x in inputs])
+    refs = hx_reader(hx, [{"bytes": x["bytes"], "script": [], "tag": "ref", "prefix": x.get("prefix", 0), "chain": x.get("chain", 0), "base": x.get("base", [0, 0])} for x in inputs])
     for e, r in zip(events, refs):
         e["ref"] = r["calls"]
     verdicts, st, tr = core.validate_events("Trace_Reader", events, prop)
@@ -164,6 +168,8 @@ def run(prop, tier, seed, rep):
             summary.setdefault(k, [0, bytes(ev["bytes"]).hex(), ev["script"]])[0] += 1
             rep.mismatch(owner, v["cls"], field, {"kind": "reader", "bytes": ev["bytes"], "hex": bytes(ev["bytes"]).hex(),
                                                   "script": ev["script"], "between": inputs[v["index"]]["between"],
+                                                  "prefix": inputs[v["index"]].get("prefix", 0), "chain": inputs[v["index"]].get("chain", 0),
+                                                  "base": inputs[v["index"]].get("base", [0, 0]), "fail_seek": inputs[v["index"]].get("fail_seek", 0),
                                                   "out": ev["out"], "plain": ev["plain"]})
     json.dump(summary, open(os.path.join(core.BUILD, f"last_{prop}_verdicts.json"), "w"), indent=1, sort_keys=True)
     if tier == "thorough":
